@@ -218,6 +218,17 @@ func init() {
 	})
 	// json.NewDecoder(r).Decode(v) where r is a *bytes.Reader positioned at the
 	// start of a document of the model: the whole document is consumed.
+	// json.NewEncoder(w).Encode(v): the document of v (plus a newline the model
+	// does not represent) is written to w in one piece.
+	reg("encoding/json.NewEncoder", func(p *Path, _ *frame, a []Value) Value {
+		return &NativeObj{Kind: "json.Encoder", T: types.NewPointer(p.eng.namedType("encoding/json", "Encoder")), Data: a[0]}
+	})
+	reg("(*encoding/json.Encoder).Encode", func(p *Path, _ *frame, a []Value) Value {
+		w := pData[Value](p, a[0], "json.Encoder")
+		doc := p.jsonMarshal(a[1])
+		res := p.callMethod(w, "Write", doc).(Tuple)
+		return res[1]
+	})
 	reg("encoding/json.NewDecoder", func(p *Path, _ *frame, a []Value) Value {
 		return &NativeObj{Kind: "json.Decoder", T: types.NewPointer(p.eng.namedType("encoding/json", "Decoder")), Data: a[0]}
 	})
